@@ -98,11 +98,14 @@ def conv_12_13 (d : Dict) : Option Dict := do
   let m ← dget d (s "marked")
   pure (dset d (s "marked") (.str (if truthy m then s ":default:" else [])))
 
-def numAdd1 : Value → Option Value
+/-- `x + 1` on a stored number; the float case is Python's double arithmetic + `repr`, a parameter: `fadd t` is the
+    text of `float(t) + 1` -/
+def numAdd1F (fadd : Bytes → Option Bytes) : Value → Option Value
   | .int i => some (.int (i + 1))
-  | _ => none                                                   -- floats are not modelled: the tie skips them
+  | .float t => (fadd t).map .float
+  | _ => none
 
-def conv_13_14 (d : Dict) : Option Dict := do
+def conv_13_14F (fadd : Bytes → Option Bytes) (d : Dict) : Option Dict := do
   let d := setVersion d 14
   let d := dset d (s "comment") (.str [])
   match dget d (s "response") with
@@ -112,11 +115,14 @@ def conv_13_14 (d : Dict) : Option Dict := do
     | some .null => do
       let req ← (dget d (s "request")).bind asDict
       let te ← dget req (s "timestamp_end")
-      let te1 ← numAdd1 te
+      let te1 ← numAdd1F fadd te
       pure (dset d (s "response") (.dict (dset (dset resp (s "timestamp_start") te) (s "timestamp_end") te1)))
     | some _ => pure d
     | none => none
   | _ => pure d
+
+/-- without an answer for float timestamps (integer timestamps only) -/
+def conv_13_14 (d : Dict) : Option Dict := conv_13_14F (fun _ => none) d
 
 def conv_14_15 (d : Dict) : Option Dict := do
   let d := setVersion d 15
